@@ -143,6 +143,10 @@ def cases(tier, seed):
         yield ('AFMX', i)
     for i in range(len(FIDE_MUST_RAISE)):
         yield ('FIDEX', i)
+    # XML documents stored in the encoding their declaration names
+    for kind in ('FIDE', 'FAMA'):
+        for enc in ('ISO-8859-1', 'windows-1252', 'UTF-16', 'utf-8-sig', 'US-ASCII'):
+            yield ('ENC', kind, enc)
     # ---- Glencoe
     glen_models = [m for m in structs if glencoe.in_fragment(m)] + [DEEP1, DEEP2] + [m for m in families.models() if glencoe.in_fragment(m)]
     for nm in ('Cafe\u0301', '\u212b', 'a\ufeffb'):
@@ -209,11 +213,13 @@ def describe(case):
         return 'AFMX:' + AFM_MUST_RAISE[case[1]]
     if case[0] == 'FIDEX':
         return 'FIDEX:' + FIDE_MUST_RAISE[case[1]]
+    if case[0] == 'ENC':
+        return 'ENC:%s document stored as %s' % (case[1], case[2])
     return '%s:%s | choices=%s' % (case[0], sh.model_str(case[1]), ','.join(str(x) for x in case[2]))
 
 
 def reduce(case):
-    if case[0] in ('CORPUS', 'AFMX', 'GLENX', 'FIDEX'):
+    if case[0] in ('CORPUS', 'AFMX', 'GLENX', 'FIDEX', 'ENC'):
         return
     kind, model, k = case
     if kind == 'FAMA':
@@ -330,6 +336,30 @@ def check(case):
             engine.validated()
             return []
         return [Fail('unrepresentable-construct-accepted', {'doc': doc, 'model': cm._safe_str(bd.observe(fm))})]
+    if kind == 'ENC':
+        fmtkind, enc = case[1], case[2]
+        name = 'Cafe' if enc == 'US-ASCII' else 'Caf\u00e9 \u00fc'
+        model = _with(rt.deviation(CAR5, 1, ('name', name)), [('REQUIRES', name, 'Dc')] if fmtkind == 'FAMA' else [('IMPLIES', name, 'Dc')])
+        doc = _document(fmtkind, model, (0,) if fmtkind == 'FAMA' else _key(fide, fide.DEFAULT))
+        declared = 'UTF-8' if enc == 'utf-8-sig' else enc
+        doc = doc.replace('encoding="UTF-8"', 'encoding="%s"' % declared, 1)
+        if 'encoding="%s"' % declared not in doc:
+            raise AssertionError('reference document has no XML declaration to adjust')
+        path = engine.tmppath('c09enc.xml')
+        with open(path, 'wb') as fh:
+            fh.write(doc.encode(enc))
+        try:
+            ob = bd.observe(READERS[fmtkind](path).transform())
+            engine.tick()
+        except Exception as exc:  # noqa: BLE001
+            return [Fail('%s-valid-document-rejected:%s' % (fmtkind, type(exc).__name__), {'stored as': enc, 'msg': str(exc)[:150]})]
+        rt.compare(FMT[fmtkind], model, ob, out)
+        for f in out:
+            f.clause = fmtkind + '-' + f.clause
+            f.detail = {'stored as': enc, 'info': f.detail}
+        if not out:
+            engine.validated()
+        return out
     if kind == 'FIDEX':
         doc = ('<?xml version="1.0" encoding="UTF-8" standalone="no"?>\n<featureModel>\n<struct>\n<and mandatory="true" name="Fa">\n'
                '<feature name="Bb"/>\n<feature name="Dc"/>\n</and>\n</struct>\n<constraints>\n<rule>\n%s\n</rule>\n</constraints>\n</featureModel>\n'
